@@ -121,7 +121,11 @@ def custom_registry(mult='mixed'):
     reg = _integer.registry(self_class=IC)
     add_custom_natives(reg)
     interface_contracts(reg, IC, FRAME['native'], names=['inplace_pow'], per_method=CUSTOM_HELP)
-    static_contracts(reg, IC, impl_cls=IC, help_={'skip_init': True, 'mult_operand': {'int': 'int', 'obj': 'obj:' + IC}.get(mult, operand(IC)),
+    if len(mult) == 3 and set(mult) <= set('io'):        # one operand combination, e.g. 'ioi' = (int, Integer, int)
+        kinds = [{'i': 'int', 'o': 'obj:' + IC}[ch] for ch in mult]
+    else:
+        kinds = {'int': 'int', 'obj': 'obj:' + IC}.get(mult, operand(IC))
+    static_contracts(reg, IC, impl_cls=IC, help_={'skip_init': True, 'mult_operand': kinds,
                                                   '_mult_modulo_bytes': {
         # (t1 mod m)(t2 mod m) == t1 t2 (mod m), and the two instances for "only one operand was reduced"
         'lemmas': {'exit': {'l1': 'mod_value == 1 or len(result) == numbers_len',           # proof steps over locals
@@ -315,7 +319,7 @@ def units(prop, tier):
     import functools
     if prop == 'C14':
         # DESIGN C14: the Python guards / normalisation of IntegerCustom's own methods also belong to "exact in every back end"
-        return [pyvc_unit(prop, 'int.custom.' + n, functools.partial(custom_registry, 'int'), [IC + '.' + n]) for n in CUSTOM_OWN]
+        return [pyvc_unit(prop, 'int.custom.' + n, functools.partial(custom_registry, 'iii'), [IC + '.' + n]) for n in CUSTOM_OWN]
     if prop != 'C16':
         return []
     out = []
@@ -331,7 +335,8 @@ def units(prop, tier):
     for n in CUSTOM_OWN:
         if n == '_mult_modulo_bytes':
             # (about 1 minute per operand combination: int / Integer operands in quick, all 8 combinations in thorough)
-            for m in (('int', 'obj') if tier == 'quick' else ('int', 'obj', 'mixed')):
+            import itertools
+            for m in (('iii', 'ooo') if tier == 'quick' else [''.join(x) for x in itertools.product('io', repeat=3)]):
                 out.append(pyvc_unit(prop, 'int.custom.%s.%s' % (n, m), functools.partial(custom_registry, m), [IC + '.' + n]))
             continue
         out.append(pyvc_unit(prop, 'int.custom.' + n, custom_registry, [IC + '.' + n]))
